@@ -300,15 +300,60 @@ func c07Mutate(seed []byte, c c07Case) ([]byte, bool) {
 		return nil, false
 	found:
 		_ = 0
+	case "keywiden":
+		// k-th feature key line: key lengthened by B characters; A2 (c.RA) = 1 keeps the location column by removing blanks
+		ls := lineSpans(data)
+		k := -1
+		for _, l := range ls {
+			line := data[l[0]:l[1]]
+			m := reKeyLine.FindSubmatchIndex(line)
+			if m == nil {
+				continue
+			}
+			k++
+			if k != c.A {
+				continue
+			}
+			gap := m[5] - m[4]
+			if c.RA == 1 {
+				gap -= c.B
+				if gap < 1 {
+					gap = 1
+				}
+			}
+			var nl []byte
+			nl = append(nl, line[:m[3]]...)
+			nl = append(nl, bytes.Repeat([]byte{'x'}, c.B)...)
+			nl = append(nl, bytes.Repeat([]byte{' '}, gap)...)
+			nl = append(nl, line[m[5]:]...)
+			return finishMut(append(append(append([]byte(nil), data[:l[0]]...), nl...), data[l[1]:]...), c), true
+		}
+		return nil, false
+	case "numgrow":
+		// k-th run of digits gets B more digits appended
+		idx := reDigits.FindAllIndex(data, -1)
+		if c.A >= len(idx) {
+			return nil, false
+		}
+		m := idx[c.A]
+		out := append(append(append([]byte(nil), data[:m[1]]...), bytes.Repeat([]byte{'0'}, c.B)...), data[m[1]:]...)
+		return finishMut(out, c), true
 	default:
 		return nil, false
 	}
+	return finishMut(data, c), true
+}
+
+var reKeyLine = regexp.MustCompile(`^     ([A-Za-z_'0-9-]+)( +)\S`)
+var reDigits = regexp.MustCompile(`[0-9]+`)
+
+func finishMut(data []byte, c c07Case) []byte {
 	if c.CRLF {
 		// (a seed that already uses CRLF, like pBAT5.txt, stays as it is)
 		data = bytes.ReplaceAll(data, []byte("\r\n"), []byte("\n"))
 		data = bytes.ReplaceAll(data, []byte("\n"), []byte("\r\n"))
 	}
-	return data, true
+	return data
 }
 
 var (
@@ -556,6 +601,30 @@ func init() {
 					eval(c07Case{Kind: "scan", Seed: name, Mut: "novalue", A: i, B: 1}, 200000+i)
 					for _, w := range []int{1, 2, 5} {
 						eval(c07Case{Kind: "scan", Seed: name, Mut: "widen", A: i, B: w}, 200000+i)
+					}
+				}
+				nk := 0
+				for _, l := range lineSpans(seed) {
+					if reKeyLine.Match(seed[l[0]:l[1]]) {
+						nk++
+					}
+				}
+				if nk > 12 && !thorough {
+					nk = 12
+				}
+				for i := 0; i < nk; i++ {
+					for _, w := range []int{1, 3, 8, 12, 16, 30} {
+						eval(c07Case{Kind: "scan", Seed: name, Mut: "keywiden", A: i, B: w}, 250000+i)
+						eval(c07Case{Kind: "scan", Seed: name, Mut: "keywiden", A: i, B: w, RA: 1}, 250000+i)
+					}
+				}
+				nd := len(reDigits.FindAllIndex(seed, -1))
+				if nd > 150 && !thorough {
+					nd = 150
+				}
+				for i := 0; i < nd; i++ {
+					for _, w := range []int{1, 3, 12} {
+						eval(c07Case{Kind: "scan", Seed: name, Mut: "numgrow", A: i, B: w}, 260000+i)
 					}
 				}
 				if small(name) || thorough {
